@@ -1,4 +1,7 @@
-use crate::{common::BinaryOp, syn_utils::expand_self};
+use crate::{
+    common::BinaryOp,
+    syn_utils::{atomic_type, expand_self},
+};
 use proc_macro2::{Span, TokenStream};
 use quote::quote;
 use std::fmt::Display;
@@ -301,6 +304,7 @@ fn to_rhs(s: &PathSegment, self_ty: &Type) -> Type {
     self_ty.clone()
 }
 fn ref_type(ty: &Type) -> Type {
+    let ty = atomic_type(ty);
     parse_quote!(&#ty)
 }
 fn ref_type_with(ty: &Type, is_ref: bool) -> Type {
